@@ -69,9 +69,9 @@ func runWAL(args []string) error {
 		var err error
 		switch op.Op {
 		case "append":
-			err = w.Append(unhex(in.Recs[op.Rec]))
+			err = w.Append(walRec(&in, op.Rec))
 		case "appendsync":
-			err = w.AppendSync(unhex(in.Recs[op.Rec]))
+			err = w.AppendSync(walRec(&in, op.Rec))
 		case "rotate":
 			_, err = w.Rotate()
 		case "close":
@@ -116,7 +116,9 @@ func runWALReplay(args []string) error {
 				return
 			}
 			err = rp.Replay(func(rec []byte) error {
-				if t, ok := tokOf[string(rec)]; ok {
+				if rec == nil {
+					out = append(out, "NIL")
+				} else if t, ok := tokOf[string(rec)]; ok {
 					out = append(out, t)
 				} else {
 					out = append(out, fmt.Sprintf("UNKNOWN(len=%d)", len(rec)))
@@ -131,4 +133,12 @@ func runWALReplay(args []string) error {
 		enc.Encode(res)
 	}
 	return nil
+}
+
+// the record bytes of a token; the token "NIL" is the nil record
+func walRec(in *walIn, tok string) []byte {
+	if tok == "NIL" {
+		return nil
+	}
+	return unhex(in.Recs[tok])
 }
